@@ -243,7 +243,8 @@ def child_case(st, case):
                     f1, f2 = getattr(lib1, d['name']), getattr(lib2, d['name'])
                     t1, t2 = ffi1.typeof(f1), ffi2.typeof(f2)
                     if not same_type(ffi1, t1, ffi2, t2):
-                        bad('function-type-differs', '%s: %r vs %r' % (d['name'], t1, t2))
+                        bad(cname_only(ffi1, t1, ffi2, t2, c) or 'function-type-differs',
+                            '%s: %r vs %r' % (d['name'], t1, t2))
                     a1 = int(ffi1.cast('uintptr_t', f1))
                     a2 = int(ffi2.cast('uintptr_t', f2))
                     a3 = int(ffi2.cast('uintptr_t', ffi2.addressof(lib2, d['name'])))
